@@ -31,3 +31,26 @@ func VerifC13TemplateFuncs() {
 	}
 	verifrt.Reach("funcs-checked")
 }
+
+// VerifC13B64: the b64decMap template function decodes every string entry of its argument whatever else the map
+// holds and whatever order the map is iterated in (a template's output must not depend on map iteration order).
+func VerifC13B64() {
+	n := verifrt.IntRange("nStrings", 1, verifrt.Bound("maxStrings", 3))
+	withOther := verifrt.Bool("withNonStringValue")
+	for iter := 0; iter < verifrt.Repeat(); iter++ {
+		in := map[string]any{}
+		keys := []string{"a", "b", "c", "d"}
+		for k := 0; k < n; k++ {
+			in[keys[k]] = "dmFsdWU=" // "value"
+		}
+		if withOther {
+			in["number"] = int64(7)
+		}
+		out, err := base64decodeMap(in)
+		verifrt.Assert(err == nil, "C13/b64decMap-accepts-mixed-maps")
+		for k := 0; k < n; k++ {
+			verifrt.Assert(out[keys[k]] == "value", "C13/b64decMap-decodes-every-string-entry")
+		}
+	}
+	verifrt.Reach("decoded")
+}
